@@ -8,7 +8,9 @@ def run(ctx):
     plans = [
         # many clients using the same stream ids, responses delayed and reordered
         ("reorder-3x1", ["-random", n(1500, 12000), "-nodes", "3", "-numconns", "1", "-clients", "8", "-workers", "8", "-round", n(750, 3000), "-delay", "8", "-okbias", "6"], False),
-        ("reorder-2x2", ["-random", n(1000, 8000), "-nodes", "2", "-numconns", "2", "-clients", "6", "-workers", "8", "-round", n(500, 2000), "-delay", "8", "-okbias", "6"], False),
+        # (every fifth plain answer is about 20 KiB: larger than what the proxy coalesces into one write)
+        ("reorder-2x2", ["-random", n(1000, 8000), "-nodes", "2", "-numconns", "2", "-clients", "6", "-workers", "8", "-round", n(500, 2000), "-delay", "8", "-okbias", "6",
+                         "-bigevery", "5"], False),
         ("reorder-drops-3x1", ["-random", n(600, 4000), "-nodes", "3", "-numconns", "1", "-clients", "6", "-workers", "6", "-round", "300", "-delay", "5", "-droprate", "0.4", "-okbias", "4"], False),
         # volume: one connection, > 2048 requests outstanding at once (every backend stream id in use, exhaustion crossed),
         # one heartbeat answered after the proxy gave up on it
